@@ -341,6 +341,9 @@ fn parse_cmd(t: &[&str]) -> Cmd {
         "hsf" => Cmd::HistorySearchForward,
         "killwl" => Cmd::Kill(Movement::WholeLine),
         "noop" => Cmd::Noop,
+        "replaceeol" => Cmd::Replace(Movement::EndOfLine, Some(parse_str(t[1]))),
+        "replacewl" => Cmd::Replace(Movement::WholeLine, Some(parse_str(t[1]))),
+        "yank" => Cmd::Yank(1, rustyline::Anchor::Before),
         other => panic!("cmd {other}"),
     }
 }
